@@ -292,7 +292,7 @@ pub fn vpl_sources(mem: &[MemSource]) -> Vec<(String, String, Vec<u8>)> {
 
 pub fn run(ctx: Arc<Ctx>) {
 	ctx.rule(
-		"sources: 5 container readers x 8 representative tile sets written by the repository's writers (incl. payloads shared by many coordinates of one block); PMTiles (run lengths, shared offsets, leaf directories) and versatiles containers from the independent encoders; a reader with the trait's default box stream whose lookups answer after uneven delays; TilesConvertReader x 4 flag combinations x {unrestricted, restricted} over a MemSource and a versatiles file, and recompressing (gzip -> gzip/brotli/none, with and without force); \
+		"sources: 5 container readers x 8 representative tile sets written by the repository's writers (incl. payloads shared by many coordinates of one block); PMTiles (run lengths, shared offsets, leaf directories) and versatiles containers from the independent encoders, tar archives of another tool with hard-link members; a reader with the trait's default box stream whose lookups answer after uneven delays; TilesConvertReader x 4 flag combinations x {unrestricted, restricted} over a MemSource and a versatiles file, and recompressing (gzip -> gzip/brotli/none, with and without force; none -> gzip/brotli over a source that holds zero-length tiles); \
 		 pipeline operations and nestings over MemSources, from_debug and a real versatiles file. boxes: all boxes at z<=2 (quick) / z<=3 (thorough), every box with corners from {0,255,256,511,cov_min(-1),cov_max(+1),max} at the sets' high zoom levels, all empty encodings at z 0,1,7,8,9,31. \
 		 oracle: multiset of streamed (coord, bytes) = lookups over the box. non-trivial = (source, box) pairs whose expected result is non-empty",
 	);
@@ -354,6 +354,26 @@ pub fn run(ctx: Arc<Ctx>) {
 				Err(e) => ctx.outcome(&format!("setup: reader rejects a container of another writer (C16's subject): {}", super::c01::norm_msg(&e))),
 			}
 		}
+		// tar archives of another tool: repeated payloads stored once and named again as hard-link members (GNU tar does
+		// this for hard-linked files), members in reverse order, './' prefix
+		{
+			let mut shared = TileMap::new();
+			for (x, y) in [(0u32, 0u32), (1, 0), (2, 0), (0, 1), (3, 3), (7, 7), (5, 2)] {
+				shared.insert((3, x, y), if (x + y) % 2 == 0 { b"ocean ocean ocean".to_vec() } else { format!("land {x} {y}").into_bytes() });
+			}
+			shared.insert((9, 255, 255), b"ocean ocean ocean".to_vec());
+			shared.insert((9, 256, 256), b"ocean ocean ocean".to_vec());
+			shared.insert((9, 256, 255), b"coast".to_vec());
+			let members: Vec<(String, Vec<u8>)> = shared.iter().map(|(k, v)| (format!("{}/{}/{}.bin", k.0, k.1, k.2), v.clone())).collect();
+			for (li, layout) in [crate::codec::TarLayout { dot_prefix: false, dir_entries: false, gnu: true, reversed: false, meta_last: false }, crate::codec::TarLayout { dot_prefix: true, dir_entries: true, gnu: false, reversed: true, meta_last: true }].into_iter().enumerate() {
+				let path = work.0.join(format!("links{li}.tar"));
+				std::fs::write(&path, crate::codec::tar_write_hard_links(&members, layout)).unwrap();
+				match ct::open(&rt, Cont::Tar, &ct::Written::Path(path)) {
+					Ok(r) => sources.push((Source { class: "tar reader (archive of another tool, hard-link members)".into(), name: format!("tar reader over an archive with hard-link members, layout {li}"), src: AnySrc::Reader(r), universe: universe_of(&[&shared]), dense_everywhere: false, area_cost: true, build: json!({"kind": "tar-links", "index": li}) }, vec![9])),
+					Err(e) => ctx.outcome(&format!("setup: reader rejects a tar archive of another tool (C16's subject): {}", super::c01::norm_msg(&e))),
+				}
+			}
+		}
 		// a reader that only implements lookups (box stream = the trait's default), answering after a coordinate-dependent number of Pending polls
 		let plain = crate::memsource::PlainSource(MemSource::new("plain", sets[4].1.clone(), TileFormat::BIN, TileCompression::Uncompressed).with_uneven_yields());
 		sources.push((Source { class: "reader with the trait's default box stream".into(), name: "plain reader, uneven answer times".into(), src: AnySrc::Reader(Box::new(plain)), universe: universe_of(&[&sets[4].1]), dense_everywhere: false, area_cost: true, build: json!({"kind": "plain-uneven"}) }, vec![9]));
@@ -384,6 +404,33 @@ pub fn run(ctx: Arc<Ctx>) {
 					dense_everywhere: false,
 					area_cost: true,
 					build: json!({"kind": "converter-recompress", "target": format!("{tc:?}"), "force": force}),
+				},
+				vec![3, 9],
+			)),
+			Err(e) => ctx.outcome(&format!("setup: converter failed: {e}")),
+		}
+	}
+	// the same over an uncompressed source that holds a zero-length tile (a source may hold one: lookups return it): the
+	// compressing stage must treat it like any other tile on both paths
+	for (tc, force, flip) in [(TileCompression::Gzip, false, false), (TileCompression::Brotli, true, true), (TileCompression::Gzip, true, false)] {
+		let mut with_empty = conv_tiles.clone();
+		with_empty.insert((3, 1, 0), vec![]);
+		with_empty.insert((9, 252, 255), vec![]);
+		let inner = Box::new(MemSource::new("mem", with_empty.clone(), TileFormat::BIN, TileCompression::Uncompressed));
+		let mut cp = TilesConverterParameters::new_default();
+		cp.tile_compression = Some(tc);
+		cp.force_recompress = force;
+		cp.flip_y = flip;
+		match TilesConvertReader::new_from_reader(inner, cp) {
+			Ok(r) => sources.push((
+				Source {
+					class: "converting reader (compressing a source with a zero-length tile)".into(),
+					name: format!("converting reader none -> {tc:?} force={force} flip={flip}, source with zero-length tiles"),
+					src: AnySrc::Reader(Box::new(r)),
+					universe: universe_of(&[&with_empty]),
+					dense_everywhere: false,
+					area_cost: true,
+					build: json!({"kind": "converter-compress-empty", "target": format!("{tc:?}"), "force": force}),
 				},
 				vec![3, 9],
 			)),
